@@ -242,7 +242,7 @@ def run_check(prop: str, tier: str, seed: int) -> int:
         "lean_failures": lean["failures"], "lean_build_s": lean.get("build_s"), "driver_build": lean.get("driver_build", "ok"),
         "evaluations": rep.evaluations, "distinct_nontrivial": len(rep.nontrivial_keys),
         "rule": getattr(mod, "RULE", ""), "samples": rep.samples or ["(no samples recorded)"],
-        "traces_validated_against_impl": rep.traces or rep.evaluations,
+        "traces_validated_against_impl": rep.traces,   # measured: model-vs-implementation comparisons of this run
         "input_distribution": dict(sorted(rep.dist.items())),
         "streams": rep.streams, "notes": rep.notes,
         "known_findings_reproduced": sorted(printed_known),
